@@ -49,6 +49,41 @@ def junk_substituted(case):
     return fx.refresh(c)
 
 
+def subsecond_times(out: Outcome, fn, rng, count):
+    """Times with a fractional second (quarter seconds: exact in every carrier).  The Lean model's
+    time axis is whole seconds, so this sub-check is the relational half of C15.holds only: every
+    carrier must give the flags the datetime64[ns] carrier gives."""
+    done = 0
+    tries = 0
+    while done < count and tries < count * 6:
+        tries += 1
+        case = gen.GENERATORS[fn](rng, 8)
+        n = len(case["t"])
+        if n < 2 or any(len(case[k]) != n for k in fx.SERIES_KEYS[fn]) or not std_margin_ok(case):
+            continue
+        quarters = [rng.choice([0, 250_000_000, 500_000_000, 750_000_000]) for _ in range(n)]
+        t_ns = [int(t) * 1_000_000_000 + q for t, q in zip(case["t"], quarters)]
+        if any(b <= a for a, b in zip(t_ns, t_ns[1:])):
+            continue
+        if fn == "climatology" and case["members"] and rng.random() < 0.7:
+            # put an absolute window end between a sample and the next whole second
+            i = rng.randrange(n)
+            case["members"][0]["period"] = None
+            case["members"][0]["tspan"] = [F(case["t"][0] - 5), F(case["t"][i])]
+        c = dict(case)
+        c["t_ns"] = t_ns
+        done += 1
+        base = sut.observe(c, "nd_f8", "dt64ns", "list")
+        out.record({"subsecond": jsonable(c)}, fx.nontrivial(base), [f"fn:{fn}", "subsecond-times"])
+        for tc in sut.SUBSECOND_TIME_CARRIERS[1:]:
+            o = sut.observe(c, "nd_f8", tc, "list")
+            if o.get("flags") != base.get("flags") or ("error" in o) != ("error" in base):
+                out.violation(f"{WHAT}: {fn} with sub-second times through time carrier {tc}: {o.get('flags', o)} vs "
+                              f"{base.get('flags', base)} (datetime64[ns])",
+                              {"fn": fn, "case": jsonable(c), "carriers": ["nd_f8", tc, "list"], "observed": o, "baseline": base})
+                break
+
+
 def run(out: Outcome, drv):
     n = 120 if out.tier == "quick" else 3000
     out.rule = ("for every test: generated logical case (valid parameters), delivered through every supported data carrier (list / tuple "
@@ -79,6 +114,8 @@ def run(out: Outcome, drv):
             obs = [sut.observe(case, *v) for v in variants]
             reqs.append({"kind": "c15", "call": sut.wire_case(case), "obs_list": [sut.wire_obs(o) for o in obs]})
             meta.append((case, variants, obs))
+        if fn in HAS_TIME:
+            subsecond_times(out, fn, gen.rng_for(out.seed, "C15", fn, "subsecond"), max(10, n // 4))
         ans = drv.run(reqs)
         for (case, variants, obs), a in zip(meta, ans):
             if not a["in_dom"]:
